@@ -10,6 +10,7 @@
 
 #include <distributed/mpi.h>
 #include <lp/lp.h>
+#include <verif_hooks.h>
 
 /// The number of nodes that still need to continue running the simulation
 _Atomic nid_t nodes_to_end;
@@ -72,6 +73,9 @@ void termination_on_ctrl_msg(void)
  */
 void termination_on_gvt(simtime_t current_gvt)
 {
+	VERIF_TRACE(VT_TERM_VOTE, verif_bits(current_gvt),
+	    !((lps_to_end || max_t >= current_gvt) && current_gvt < global_config.termination_time), lps_to_end,
+	    verif_bits(max_t));
 	if(likely((lps_to_end || max_t >= current_gvt) && current_gvt < global_config.termination_time))
 		return;
 	max_t = SIMTIME_MAX;
